@@ -37,7 +37,8 @@ type Cfg struct {
 
 // Step is one action of a script.
 type Step struct {
-	Op    string   `json:"op"` // "in", "burst", "send", "logout", "stop", "advance", "handlerstop"
+	Op    string   `json:"op"` // "in", "raw", "burst", "send", "logout", "stop", "advance", "handlerstop"
+	Raw   []byte   `json:"raw,omitempty"` // "raw": bytes handed to ServeIncoming as they are
 	In    *InMsg   `json:"in,omitempty"`
 	Burst []*InMsg `json:"burst,omitempty"`
 	Dt    int64    `json:"dt,omitempty"` // advance: nanoseconds of virtual time
@@ -364,6 +365,16 @@ func runDirect(cfg Cfg, steps []Step, hooks *Hooks, maxHB int, tr *Trace) {
 			r.h.ServeIncoming(b)
 		}
 		switch st.Op {
+		case "raw":
+			r.mu.Lock()
+			ended := r.runEnded
+			r.mu.Unlock()
+			if ended {
+				delivered = false
+			} else {
+				r.log.Add(Event{Kind: "inject", Bytes: st.Raw})
+				r.h.ServeIncoming(append([]byte(nil), st.Raw...))
+			}
 		case "in":
 			inject(st.In)
 		case "burst":
